@@ -418,6 +418,9 @@ class TBRMatchedMarkets:
           results.push(0, design)
 
     self._search_results = results
+    # The stored designs refer to the geo index that is in place now. The data
+    # object may be shared, so remember the index for later retrievals.
+    self._search_results_geo_index = list(self.data.geo_index)
     return self.search_results()
 
   def search_results(self):
@@ -434,8 +437,9 @@ class TBRMatchedMarkets:
       design = result[0]
       # map from geo indices to geo IDs.
       for d in design:
-        treatment_geos = {self.data.geo_index[x] for x in d.treatment_geos}
-        control_geos = {self.data.geo_index[x] for x in d.control_geos}
+        geo_index = self._search_results_geo_index
+        treatment_geos = {geo_index[x] for x in d.treatment_geos}
+        control_geos = {geo_index[x] for x in d.control_geos}
         # Return copies so that the stored designs keep referring to geo
         # indices and the results can be retrieved repeatedly.
         output_result.append(
@@ -707,4 +711,7 @@ class TBRMatchedMarkets:
         results.push(0, design)
 
     self._search_results = results
+    # The stored designs refer to the geo index that is in place now. The data
+    # object may be shared, so remember the index for later retrievals.
+    self._search_results_geo_index = list(self.data.geo_index)
     return self.search_results()
